@@ -416,6 +416,69 @@ def tokenizeDoctest (lines : List Line) (start blockIndent : Nat) : List Char ×
   let r := dtLoop blockIndent (lines.drop (start + 1)) (start + 1) blockIndent []
   (joinNL ((slice lines start r.1).map (·.drop r.2.1)), r.1, r.2.2)
 
+/-! ## `_tokenize_listart` and the literal block that follows the first paragraph of a list item or field
+
+```
+linenum = start + 1; para_indent = None; doublecolon = lines[start].rstrip()[-2:] == '::'
+while linenum < len(lines):
+    line = lines[linenum]; indent = len(line) - len(line.lstrip())
+    if doublecolon: break
+    if line.rstrip()[-2:] == '::': doublecolon = True
+    if indent == len(line): break
+    if indent < bullet_indent: break
+    if _BULLET_RE.match(line, indent): break
+    if para_indent is None: para_indent = indent
+    if indent != para_indent: break
+    linenum += 1
+tokens.append(Token(BULLET, start, bcontents, bullet_indent))
+pcontents = ' '.join([lines[start][para_start:].strip()] + [ln.strip() for ln in lines[start+1:linenum]]).strip()
+if pcontents: tokens.append(Token(PARA, start, pcontents, para_indent))
+```
+and in `_tokenize`: `if tokens[-1].indent is not None: indent = tokens[-1].indent`, then
+`if tokens[-1].tag == PARA and tokens[-1].contents[-2:] == '::': _tokenize_literal(lines, linenum, indent, …)`.
+`_BULLET_RE.match(line, indent)` is a parameter (one Boolean per line); `para_start = match.end()`. -/
+
+/-- `line.rstrip()[-2:] == '::'` -/
+def endsDoubleColon (l : List Char) : Bool := (rstrip l).reverse.take 2 == [':', ':']
+
+/-- `s.strip()` -/
+def pyStrip (l : List Char) : List Char := rstrip (l.dropWhile pyIsSpace)
+
+/-- `' '.join(parts)` -/
+def joinSp : List (List Char) → List Char
+  | [] => []
+  | [l] => l
+  | l :: ls => l ++ ' ' :: joinSp ls
+
+/-- the loop; `ls = lines[linenum:]` with the bullet flag of each line; returns (linenum, para_indent) -/
+def listartLoop (bulletIndent : Nat) : List (Line × Bool) → Nat → Option Nat → Bool → Nat × Option Nat
+  | [], n, pi, _ => (n, pi)
+  | (l, isBullet) :: ls, n, pi, dc =>
+    if dc then (n, pi)
+    else if indentOf l = l.length then (n, pi)
+    else if indentOf l < bulletIndent then (n, pi)
+    else if isBullet then (n, pi)
+    else
+      match pi with
+      | some p => if indentOf l ≠ p then (n, pi) else listartLoop bulletIndent ls (n + 1) pi (endsDoubleColon l)
+      | none => listartLoop bulletIndent ls (n + 1) (some (indentOf l)) (endsDoubleColon l)
+
+/-- the literal block `_tokenize` creates right after the first paragraph of the item that starts on
+`lines[start]`: `(contents, indentation it was measured from)`, or `none` when that paragraph does not
+end with `::` (or is empty) -/
+def itemLiteral (lines : List Line) (bullets : List Bool) (start bulletIndent paraStart : Nat) :
+    Option (List Char × Nat) :=
+  match lines[start]? with
+  | none => none                       -- `_tokenize` only calls it on an existing line
+  | some first =>
+    let r := listartLoop bulletIndent ((lines.zip bullets).drop (start + 1)) (start + 1) none (endsDoubleColon first)
+    let pcontents := pyStrip (joinSp (pyStrip (first.drop paraStart) :: (slice lines (start + 1) r.1).map pyStrip))
+    if pcontents.isEmpty then none     -- no PARA token; tokens[-1] is the bullet
+    else if pcontents.reverse.take 2 == [':', ':'] then
+      let indent := r.2.getD bulletIndent     -- tokens[-1].indent if it is not None, else the line's indentation
+      some ((tokenizeLiteral lines r.1 indent).1, indent)
+    else none
+
 /-! ## `_tokenize_para`: does a paragraph look like a heading?
 
 ```
